@@ -2,7 +2,7 @@
 model-free reference views used by their oracles."""
 from harness import drvgen, msggen
 
-FRAGS = ["whole", "one", "rand", "1024", "rand"]
+FRAGS = ["whole", "one", "rand", "1024", "rand", "tail1024"]
 
 
 def gen_deployment(rng, ndev=None, kinds=None, snoop=None):
